@@ -188,6 +188,52 @@ def obligations(r, tier, seed):
                 k.holds(res2, "an object equals itself")
         obs.append(Ob("C17/same-kind/%s/copy" % kind, identical, funcs=FUNCS, light=True))
 
+    # ---- "perturbation magnitudes from 1e-12 to 1e3 times the tolerance in each single component": y is x with ONE component of
+    #      ONE field moved by  factor * tol * (1 + |field|)  -- symbolically an instance of the band obligation, numerically the
+    #      sampling distribution the property text asks for (and, in the typed-input search, integer-typed x against float y)
+    for kind in [kd for kd in KINDS if not kd.startswith("graph")]:
+        def perturbed(k, kind=kind):
+            np = k.np
+            tol = k.pos("tol") / 1000000
+            k.assume(tol * 4 < 1, "tolerance below 1/4")
+            x, fx = build(k, kind, "x")
+            what = kind.partition(":")[0]
+            names = {"pose": ["self"], "vertex": ["pose"], "odometry": ["information", "estimate"], "custom": ["information", "estimate"]}.get(what, ["information", "estimate", "offset"])
+            for fi, fname in enumerate(names):
+                flat_n = len(k.flat(fx[fi])[1])
+                for comp in sorted({0, flat_n - 1}):
+                    factor = k.real("factor_%d_%d" % (fi, comp))
+                    y, fy = build_copy(k, kind, "x")
+                    na = np.linalg.norm(fx[fi])
+                    delta = factor * tol * (1 + na)
+                    bump = np.zeros(flat_n)
+                    bump[comp] = delta
+                    if fname == "self":
+                        y = k.pose_from_raw(kind.partition(":")[2], list(np.array(fy[0]) + bump))
+                    elif fname == "pose":
+                        y.pose = k.pose_from_raw(kind.partition(":")[2], list(np.array(fy[0]) + bump))
+                    else:
+                        cur = getattr(y, fname)
+                        if hasattr(cur, "to_array"):
+                            T = {r_cls: T_ for T_, r_cls in (("R2", k.r.PoseR2), ("R3", k.r.PoseR3), ("SE2", k.r.PoseSE2), ("SE3", k.r.PoseSE3))}[type(cur)]
+                            setattr(y, fname, k.pose_from_raw(T, list(np.array(cur.to_array()) + bump)))
+                        elif hasattr(cur, "shape") and tuple(cur.shape) != ():
+                            setattr(y, fname, np.array(cur) + bump.reshape(tuple(cur.shape)))
+                        else:
+                            setattr(y, fname, cur + delta)
+                    fy = list(fx)
+                    fy[fi] = np.array(fx[fi]) + bump.reshape(tuple(np.array(fx[fi]).shape))
+                    below, above = far_below(k, fx, fy, tol), far_above(k, fx, fy, tol)
+                    for a, b, lab in ((x, y, "x.equals(y)"), (y, x, "y.equals(x)")):
+                        fa, fb = (fx, fy) if a is x else (fy, fx)
+                        res = k.returns(lambda a=a, b=b: a.equals(b, tol), "%s returns (%s component %d moved)" % (lab, fname, comp))
+                        if res is None:
+                            continue
+                        k.implies(below, res, "%s: %s component %d moved far below the tolerance => equal" % (lab, fname, comp))
+                        k.implies(above, neg(k, res), "%s: %s component %d moved far above the tolerance => unequal" % (lab, fname, comp))
+        # numeric interpretation only: symbolically this is an instance of C17/same-kind/<kind>/band (proved for all x, y)
+        obs.append(Ob("C17/same-kind/%s/single-component-perturbation" % kind, perturbed, funcs=FUNCS, numeric_only=True, num_points=(8 if tier == "quick" else 40)))
+
     # ---- ids differ
     for kind in ["vertex:SE2", "odometry:SE3", "landmark:SE2-R2", "landmark:SE3-R3", "custom:array", "custom:scalar"]:
         def ids_differ(k, kind=kind):
